@@ -71,6 +71,25 @@ Proof. intros shape H. split.
   - intros idx Hi. split; [now apply rowmajorn_bound|now apply digitsn_rowmajorn]. Qed.
 Print Assumptions C16_rowmajor_digits_nat.
 
+(* joint = marginal x conditional: the normalising constant of a conditional slice is the marginal probability of
+   the conditioning event (marginal over exactly the conditioned axes, at the conditioning values), so that
+   conditional * marginal = joint whenever the marginal is non-zero — every shape, every assignment *)
+From QV.Proofs Require Import C16_Conditional.
+From QV.Core Require Import Sums.
+Theorem C16_slice_total_is_marginal : forall (F : OF) sh ps fixed, posn sh -> fixed_ok sh fixed ->
+  sumn (prodn (select (map is_none fixed) sh)) (slice F sh ps fixed) =
+  nth (rowmajorn (select (map is_some fixed) sh) (somes fixed)) (marg_raw F sh ps (map is_some fixed)) (c0 F).
+Proof. exact slice_total_is_marginal. Qed.
+Print Assumptions C16_slice_total_is_marginal.
+
+Theorem C16_joint_is_marginal_times_conditional : forall (F : OF) sh ps fixed k', posn sh -> fixed_ok sh fixed ->
+  let tot := sumn (prodn (select (map is_none fixed) sh)) (slice F sh ps fixed) in
+  let marginal := nth (rowmajorn (select (map is_some fixed) sh) (somes fixed)) (marg_raw F sh ps (map is_some fixed)) (c0 F) in
+  tot <> c0 F ->
+  cmul F (kdiv F (slice F sh ps fixed k') tot) marginal = slice F sh ps fixed k'.
+Proof. exact joint_is_marginal_times_conditional. Qed.
+Print Assumptions C16_joint_is_marginal_times_conditional.
+
 (* non-vacuity over Qc: a 2x2 tensor with a sub-threshold entry is accepted, zeroed and renormalised *)
 Example C16_construct_example :
   let tol := Q2Qc (1 # 100000000) in
